@@ -171,6 +171,11 @@ class ClientAuthenticator:
                 self.sendAuthMessage(
                     b'ERROR ' + str(e).encode('unicode-escape'))
 
+        else:
+            # No data is expected for this mechanism (e.g. ANONYMOUS): give
+            # it up so that the server answers REJECTED instead of waiting
+            self.sendAuthMessage(b'CANCEL')
+
     def _auth_ERROR(self, line):
         log.msg(
             'Authentication mechanism failed: '
